@@ -542,8 +542,10 @@ impl<'p> From<&'p Program> for ControlFlowGraph<'p> {
                             instruction_index_offset,
                             terminator: BasicBlockTerminator::Continue,
                         };
-                        // +1 for the label
-                        instruction_index_offset += block.instructions.len() + 1;
+                        // +1 for this block's own label, if it has one; the label that was just
+                        // encountered belongs to the *next* block and is that block's first element.
+                        instruction_index_offset +=
+                            block.instructions.len() + usize::from(block.label.is_some());
                         graph.blocks.push(block);
                     }
 
